@@ -5,7 +5,8 @@
    allocation, nil dereference and type assertion of the modelled mechanisms.
    Crashes inside builtins whose logic is not modelled, and Go memory safety,
    are outside these theorems: they are only searched for (checks/C17.md). *)
-From verif Require Import lib.Base model.C17 proofs.C17_proofs proofs.C17_gofn_proofs.
+From verif Require Import lib.Base lib.Utf8 model.C17 proofs.C17_proofs proofs.C17_gofn_proofs
+  proofs.C17_subseq_proofs.
 Open Scope Z_scope.
 
 (* goFn.Call, for every Go signature NewGoFn accepts, every argument list and
@@ -114,6 +115,15 @@ Print Assumptions C17_pow_zero_neg_refuted.
 Theorem C17_pow_zero_neg_always_panics : forall bd e, e < 0 -> pow_exact 0 bd e = Panic PDivZero.
 Proof. exact pow_zero_neg_all. Qed.
 Print Assumptions C17_pow_zero_neg_always_panics.
+
+(* strutil.HasSubseq (edit:match-subseq).  Full statement (false): no panic for
+   every candidate s and seed t.  Proved: every candidate that is valid UTF-8,
+   whatever the seed (uses the width lemma of the decoder: a decoded rune other
+   than the width-1 error is as wide as its encoding). *)
+Theorem C17_has_subseq_no_panic_partial : forall s t,
+  Utf8.valid s = true -> is_panic (go_has_subseq s t) = false.
+Proof. exact go_has_subseq_no_panic_partial. Qed.
+Print Assumptions C17_has_subseq_no_panic_partial.
 
 (* strutil.HasSubseq (edit:match-subseq) slices past the end when the seed's
    U+FFFD (from an invalid byte, or written literally) matches an invalid byte
